@@ -39,9 +39,12 @@ def check(ctx):
         group = {b.name for b in reach} | {actor_body.name}
     # ---- K1 -----------------------------------------------------------------------
     inside, outside = [], []
+    new_fns = set(getattr(facts, 'new_fns', ()) or ())
     for b in facts.bodies.values():
         if b.d['promoted'] or b.crate == 'datacake_crdt':
             continue
+        if b.name in new_fns or b.name.rsplit('::{closure#0}', 1)[0] in new_fns:
+            continue        # an extracted helper: its code is part of (inlined into) every caller, where it is judged
         for blk, t in b.calls():
             if cname(t) in (HT + '::send', HT + '::recv'):
                 is_in = b.name.startswith(N + 'run_clock') or b.name in group or any(b.name.startswith(g + '::{') for g in group)
@@ -163,7 +166,8 @@ def check(ctx):
                'the reply does not carry (only) the stamp just issued by clock.send()')
     # both act on the actor's own clock (argument 1 of the coroutine = captured `clock`)
     gt = [b for b in facts.bodies.values() if b.kind == 'coroutine' and b.name == N + 'Clock::get_time::{closure#0}']
-    for b in gt:
+    # (the three handle clauses below are decided by the handle summary — check_clock_handle — when it applies)
+    for b in ([] if sem_handle else gt):
         alt = [cname(t) for _b, t in b.calls() if cname(t) and cname(t).startswith('datacake_crdt::')]
         f2 = Flow(b)
         ret_ok = False
@@ -178,7 +182,7 @@ def check(ctx):
     if not gt:
         ctx.bad('C11.K3', 'get_time', '', 'Clock::get_time not found')
     rt = [b for b in facts.bodies.values() if b.kind == 'coroutine' and b.name == N + 'Clock::register_ts::{closure#0}']
-    for b in rt:
+    for b in ([] if sem_handle else rt):
         f2 = Flow(b)
         good = False
         for blk, j, s in b.assigns():
@@ -188,7 +192,7 @@ def check(ctx):
         ctx.ob('C11.K3', 'register_ts-forwards-stamp', good, site(b),
                'register_ts sends Event::Register(caller\'s stamp)' if good else 'register_ts does not forward the caller\'s stamp')
     # requests reach the actor reliably: a blocking / awaited send, never try_send (a full queue would silently drop the event)
-    for b in gt + rt:
+    for b in ([] if sem_handle else gt + rt):
         who = b.name.split('::')[-2]
         snd = [(bb, t) for bb, t in b.calls() if cname(t) and cname(t).startswith('flume::') and 'send' in last_seg(cname(t))]
         bad_s = [last_seg(cname(t)) for bb, t in snd if last_seg(cname(t)).startswith('try_')]
